@@ -72,6 +72,11 @@ pub enum Op {
     CdBack,
     Pushd { dir: String },
     Popd,
+    /// enter a fresh, empty directory of its own and remove it: the working directory is gone
+    RmCwd,
+    /// remove the carrier's state directory while the test runs. Written so that it is a no-op
+    /// wherever `__SCRUT_TEMP_STATE_PATH` is not a `.../tmp/.state.*` path (the reference shell)
+    WipeState,
 }
 
 #[derive(Clone, Debug, PartialEq, Serialize, Deserialize)]
@@ -340,6 +345,8 @@ impl Op {
             Op::CdBack => "dir.cd-back".into(),
             Op::Pushd { dir } => decorate("dir.pushd", "", Some(dir)),
             Op::Popd => "dir.popd".into(),
+            Op::RmCwd => "dir.rm-cwd".into(),
+            Op::WipeState => "carrier.wipe-state-dir".into(),
         }
     }
 
@@ -368,6 +375,8 @@ impl Op {
             Op::Shopt { .. } => "shopt",
             Op::Mkcd { .. } | Op::CdUp | Op::CdBack => "dir.cd",
             Op::Pushd { .. } | Op::Popd => "dir.stack",
+            Op::RmCwd => "dir.rm-cwd",
+            Op::WipeState => "carrier.wipe",
         }
     }
 
@@ -417,6 +426,8 @@ impl Op {
             Op::CdBack => "cd - >/dev/null 2>&1 || true".into(),
             Op::Pushd { dir } => format!("mkdir -p {0} && pushd {0} >/dev/null", sh_quote(dir)),
             Op::Popd => "popd >/dev/null 2>&1 || true".into(),
+            Op::RmCwd => "command mkdir -p vh-gone && cd vh-gone && { command rmdir \"$PWD\" || true; }".into(),
+            Op::WipeState => "case \"${__SCRUT_TEMP_STATE_PATH:-}\" in */tmp/.state.*) command rm -rf -- \"$__SCRUT_TEMP_STATE_PATH\" ;; esac".into(),
         }
     }
 
@@ -911,6 +922,8 @@ struct Model {
     posix: bool,
     /// a user function `declare` exists: `declare` in a snippet would only make function locals
     declare_shadowed: bool,
+    /// the working directory was removed: nothing can be created below it until a `cd ..`
+    cwd_gone: bool,
     readonly_used: BTreeSet<&'static str>,
     ups: usize,
 }
@@ -1053,17 +1066,26 @@ fn gen_op(rng: &mut Rng, m: &mut Model, risky: &Risky) -> Op {
                 Op::Shopt { opt, on }
             }
             14 => match rng.below(4) {
-                0 | 1 => Op::Mkcd { dir: rng.pick(DIRS).to_string() },
+                0 | 1 => {
+                    if m.cwd_gone {
+                        continue;
+                    }
+                    Op::Mkcd { dir: rng.pick(DIRS).to_string() }
+                }
                 2 => {
                     if m.ups >= 6 {
                         continue;
                     }
                     m.ups += 1;
+                    m.cwd_gone = false;
                     Op::CdUp
                 }
                 _ => Op::CdBack,
             },
             15 => {
+                if m.cwd_gone {
+                    continue;
+                }
                 if rng.chance(3, 5) {
                     Op::Pushd { dir: rng.pick(DIRS).to_string() }
                 } else {
@@ -1104,6 +1126,8 @@ struct Risky {
     shadow_external: bool,
     shadow_alias: bool,
     shadow_wrapper: bool,
+    rm_cwd: bool,
+    wipe_state: bool,
 }
 
 fn gen_history(rng: &mut Rng) -> History {
@@ -1117,6 +1141,8 @@ fn gen_history(rng: &mut Rng) -> History {
         shadow_external: rng.chance(1, 10),
         shadow_alias: rng.chance(1, 8),
         shadow_wrapper: rng.chance(1, 30),
+        rm_cwd: rng.chance(1, 14),
+        wipe_state: rng.chance(1, 10),
     };
     let n_steps = rng.range(2, 8);
     // a history that may contain a risky class does contain it: forced at a random step
@@ -1130,11 +1156,13 @@ fn gen_history(rng: &mut Rng) -> History {
     let force_shadow_external = slot(rng, risky.shadow_external, n_steps - 1);
     let force_shadow_alias = slot(rng, risky.shadow_alias, n_steps - 1);
     let force_shadow_wrapper = slot(rng, risky.shadow_wrapper, n_steps - 1);
-    let mut m = Model { extglob_locked: false, posix: false, declare_shadowed: false, readonly_used: BTreeSet::new(), ups: 0 };
+    let force_rm_cwd = slot(rng, risky.rm_cwd, n_steps - 1);
+    let force_wipe = slot(rng, risky.wipe_state, n_steps - 1);
+    let mut m = Model { extglob_locked: false, posix: false, declare_shadowed: false, cwd_gone: false, readonly_used: BTreeSet::new(), ups: 0 };
     let mut steps = vec![];
     for si in 0..n_steps {
         let n_ops = rng.range(1, 4);
-        let forced_here = [force_readonly, force_allexport, force_dashed, force_posix, force_shadow_dir, force_shadow_builtin, force_shadow_external, force_shadow_alias, force_shadow_wrapper].iter().any(|f| *f == Some(si));
+        let forced_here = [force_readonly, force_allexport, force_dashed, force_posix, force_shadow_dir, force_shadow_builtin, force_shadow_external, force_shadow_alias, force_shadow_wrapper, force_rm_cwd, force_wipe].iter().any(|f| *f == Some(si));
         let detached = !forced_here && rng.chance(1, 12);
         let mut ops = vec![];
         let posix_before = m.posix;
@@ -1168,6 +1196,13 @@ fn gen_history(rng: &mut Rng) -> History {
         if force_readonly == Some(si) && !m.readonly_used.contains("R0") {
             m.readonly_used.insert("R0");
             ops.push(Op::Readonly { name: "R0".into(), val: pick_value(rng) });
+        }
+        if force_wipe == Some(si) {
+            ops.push(Op::WipeState);
+        }
+        if force_rm_cwd == Some(si) && !m.cwd_gone {
+            m.cwd_gone = true;
+            ops.push(Op::RmCwd);
         }
         if force_allexport == Some(si) {
             ops.push(Op::SetO { opt: "allexport".into(), on: true });
@@ -1237,6 +1272,8 @@ impl Monitor for C12 {
             ("probed:fn.shadow-external".into(), f(5, 75)),
             ("probed:alias.shadow".into(), f(6, 90)),
             ("probed:fn.shadow-wrapper".into(), f(1, 15)),
+            ("probed:dir.rm-cwd".into(), f(4, 60)),
+            ("probed:carrier.wipe".into(), f(10, 150)),
             ("probed:fn.dashed".into(), f(15, 225)),
             ("probed:alias".into(), f(70, 1050)),
             ("probed:opt".into(), f(70, 1050)),
